@@ -5,7 +5,7 @@ From Coq Require Import List ZArith NArith Bool Arith Lia DecimalN DecimalPos.
 From Lib Require Import ExprSyntax.
 From Gen Require Import Expr.
 From Model Require Import Expr.
-From Proofs Require Import ExprParse.
+From Proofs Require Import ExprInd ExprParse.
 Import ListNotations.
 Local Open Scope nat_scope.
 
@@ -366,13 +366,13 @@ Qed.
 
 Lemma atom_lexable W a : existsb (tok_eqb TNull) W = true -> forallb (lexable W) (atom_toks a) = true.
 Proof. intros H. destruct a; cbn [atom_toks forallb lexable]; rewrite ?H; reflexivity. Qed.
-Lemma atoms_lexable W l :
-  existsb (tok_eqb TNull) W = true -> forallb (lexable W) (join_toks [TComma] (map atom_toks l)) = true.
+Lemma join_lexable W ls :
+  Forall (fun s => forallb (lexable W) s = true) ls -> forallb (lexable W) (join_toks [TComma] ls) = true.
 Proof.
-  intros H. induction l as [|a l IH]; [reflexivity|]. cbn [map]. destruct l as [|b l'].
-  - cbn [map join_toks]. now apply atom_lexable.
-  - cbn [map join_toks] in *. rewrite !forallb_app. rewrite (atom_lexable W a H).
-    cbn [forallb lexable andb]. exact IH.
+  induction ls as [|x r IH]; intros F; [reflexivity|]. inversion F as [|? ? Hx Fr]; subst.
+  destruct r as [|y r'].
+  - exact Hx.
+  - cbn [join_toks] in *. rewrite !forallb_app, Hx. cbn [forallb lexable andb]. apply IH. exact Fr.
 Qed.
 
 Lemma render_lexable cols d n :
@@ -390,17 +390,21 @@ Proof.
     - apply KW; cbn; auto 10.
     - apply KW; cbn; auto 10.
     - rewrite !KW by (cbn; auto 10). reflexivity. }
-  induction n; cbn [wf no_subquery cols_in render]; intros Wf Ns Ci; try discriminate.
+  induction n as [c|a|l IHl|k|op n1 n2 IHn1 IHn2 IHl|n1 n2 IHn1 IHn2|f n1 n2 IHn1 IHn2|p n IHn|neg n1 n2 IHn1 IHn2|]
+    using node_ind2; cbn [wf no_subquery cols_in render]; intros Wf Ns Ci; try discriminate.
   - cbn [forallb lexable]. unfold W. rewrite (in_schema_words cols c Ci). reflexivity.
   - destruct a; cbn [atom_toks forallb lexable]; try reflexivity; rewrite ?KW by (cbn; auto 10); reflexivity.
   - apply andb_true_iff in Ns as [Ns1 Ns2]. apply andb_true_iff in Ci as [Ci1 Ci2].
     destruct op as [o| | |].
     + apply andb_true_iff in Wf as [W1 W2].
       apply forallb_sqlop; [reflexivity|reflexivity|apply Hops|now apply IHn1|now apply IHn2].
-    + apply andb_true_iff in Wf as [W1 W2]. destruct n2; try discriminate.
+    + apply andb_true_iff in Wf as [W1 W2]. destruct n2 as [| |l| | | | | | |]; try discriminate.
       apply forallb_sqlop; [reflexivity|reflexivity|apply Hops|now apply IHn1|].
       cbn [render]. unfold seq_repr. cbn [forallb lexable]. rewrite forallb_app. cbn [forallb lexable].
-      rewrite andb_true_r. apply atoms_lexable. apply KW. cbn; auto 10.
+      rewrite andb_true_r. cbn [andb]. apply join_lexable.
+      specialize (IHl l eq_refl). cbn [no_subquery cols_in] in Ns2, Ci2.
+      rewrite Forall_forall in *. rewrite forallb_forall in *.
+      intros s Hs. apply in_map_iff in Hs as (x & <- & Hx). apply IHl; auto.
     + apply andb_true_iff in Wf as [W1 W2]. destruct n2 as [|[]| | | | | | | |]; try discriminate.
       apply forallb_sqlop; [reflexivity|reflexivity|apply Hops|now apply IHn1|].
       cbn [render atom_toks forallb lexable]. rewrite ?KW by (cbn; auto 10); reflexivity.
